@@ -28,6 +28,15 @@ pub fn apply_tx_batch_impl<C: ContentAddrStore>(
     // we first obtain *all* the relevant coins
     let relevant_coins = load_relevant_coins(this, txx)?;
 
+    // nobody gets covenants executed for free: a transaction that does not pay its minimum fee is turned away
+    // before any of its covenants is run (create_next_state makes the same comparison again when it splits the fee)
+    for tx in txx {
+        let min_fee = minimum_fee(this.fee_multiplier, tx);
+        if tx.fee < min_fee {
+            return Err(StateError::InsufficientFees(min_fee));
+        }
+    }
+
     // apply the stake transactions
     let new_stakes = load_stake_info(this, txx)?;
 
@@ -133,12 +142,7 @@ fn create_next_state<C: ContentAddrStore>(
             }
         }
         // fees
-        // base_fee adds the covenant weights up with plain `+`, and a single covenant can already weigh
-        // u128::MAX (weights saturate): cap each one so that the sum cannot wrap around into a small fee
-        let weight_cap = u128::MAX / (tx.covenants.len() as u128 + 1);
-        let min_fee = tx.base_fee(next_state.fee_multiplier, 0, |c| {
-            covenant_weight_from_bytes(c).min(weight_cap)
-        });
+        let min_fee = minimum_fee(next_state.fee_multiplier, tx);
         if tx.fee < min_fee {
             return Err(StateError::InsufficientFees(min_fee));
         } else {
@@ -157,6 +161,16 @@ fn create_next_state<C: ContentAddrStore>(
         }
     }
     Ok(next_state)
+}
+
+/// The least fee a transaction must pay under the given fee multiplier.
+fn minimum_fee(fee_multiplier: u128, tx: &Transaction) -> CoinValue {
+    // base_fee adds the covenant weights up with plain `+`, and a single covenant can already weigh
+    // u128::MAX (weights saturate): cap each one so that the sum cannot wrap around into a small fee
+    let weight_cap = u128::MAX / (tx.covenants.len() as u128 + 1);
+    tx.base_fee(fee_multiplier, 0, |c| {
+        covenant_weight_from_bytes(c).min(weight_cap)
+    })
 }
 
 /// `Transaction::total_outputs` sums the outputs of each denomination, and the fee for MEL, with plain `+`.
